@@ -385,6 +385,14 @@ def run_tie(rep, tier, rs, replay=None):
                 for dt in (np.float64, np.int64, np.int8, np.uint8, np.bool_):
                     t1_, p1_ = fit_as(dt)
                     # compared as probabilities: float32 forms 1 - p, so a tiny probability carries an ABSOLUTE error of ~6e-8
+                    if t1_ != t0_:
+                        # two spanning trees of (numerically) equal total mutual information are both maximal: which one the
+                        # spanning-tree routine returns on an exact tie is not the property's business
+                        R_ = ref_mi(np.asarray(big, dtype=np.float64), case["alpha"])
+                        tot = lambda tr: sum(R_[i_, pa_] for i_, pa_ in enumerate(tr) if pa_ >= 0)
+                        if abs(tot(t0_) - tot(t1_)) <= 1e-6 * max(1.0, abs(tot(t0_))):
+                            dist["dtype_tree_ties"] = dist.get("dtype_tree_ties", 0) + 1
+                            continue
                     if t1_ != t0_ or not np.allclose(np.exp(p1_), np.exp(p0_), rtol=2e-4, atol=1e-6, equal_nan=True):
                         ndirect += 1
                         if ndirect <= 5:
